@@ -34,6 +34,16 @@ type Event struct {
 	Who    string        `json:"who"`
 	Len    int           `json:"len,omitempty"`
 	Note   string        `json:"note,omitempty"`
+	// Head is the first bytes of the message (hex), enough to tell the gbn
+	// packet type and sequence number when a history has to be diagnosed.
+	Head string `json:"head,omitempty"`
+}
+
+func head(b []byte) string {
+	if len(b) > 4 {
+		b = b[:4]
+	}
+	return fmt.Sprintf("%x", b)
 }
 
 type item struct {
@@ -351,7 +361,7 @@ func (s *sendStream) Send(box *hashmailrpc.CipherBox) error {
 		st.lastAt = at
 		st.q = append(st.q, item{at: at, msg: msg})
 	}
-	r.event(Event{Op: "send", Stream: id, Who: s.c.who, Len: len(msg), Note: note})
+	r.event(Event{Op: "send", Stream: id, Who: s.c.who, Len: len(msg), Note: note, Head: head(msg)})
 	r.signal()
 	return nil
 }
@@ -460,7 +470,7 @@ func (s *recvStream) Recv() (*hashmailrpc.CipherBox, error) {
 			if !st.q[0].at.After(now) {
 				it := st.q[0]
 				st.q = st.q[1:]
-				r.event(Event{Op: "recv", Stream: s.id, Who: s.c.who, Len: len(it.msg)})
+				r.event(Event{Op: "recv", Stream: s.id, Who: s.c.who, Len: len(it.msg), Head: head(it.msg)})
 				r.mu.Unlock()
 				return &hashmailrpc.CipherBox{
 					Desc: &hashmailrpc.CipherBoxDesc{StreamId: []byte(s.id)},
